@@ -1,5 +1,5 @@
 """C16 JSON Merge Patch follows RFC 7386 - dominance facts of the recursion."""
-from .. import frontend as F, ast as A, cfg as C, util as U, guards as G
+from .. import frontend as F, ast as A, cfg as C, util as U, guards as G, inline as I
 
 EXPLANATION = ('Dominance facts over the CFG of mergepatch::detail::apply_merge_patch_ (RFC 7386 section 2): (R16.1) every insertion into the '
                'target is under `member.value()` not being null; (R16.2) when the key exists the old member is erased unconditionally, so null '
@@ -128,6 +128,8 @@ def r16_5(chk, facts):
     chk.require(fns, 'mergepatch::from_diff not found')
     for fn in U.one_per_inst(fns):
         chk.analysed(fn)
+        # the two member loops may live in helpers that receive `result` by reference (E11); the recursive call is not expanded
+        fn = I.expand(facts, fn, allow=lambda callee, call: callee['n'] != 'from_diff', depth=3)
         g = C.CFG(fn['body'])
         ems = []
         for nd in g.rpo:
